@@ -162,7 +162,7 @@ def gen_query(rng, m):
 
 # ------------------------------------------------------------------ real side
 def build_model(m, preaggs=None):
-    from sidemantic import Dimension, Metric, Model
+    from sidemantic import Dimension, Metric, Model, Segment
     dims = []
     for d in m["dims"]:
         kw = {"name": d["name"], "type": d.get("type", "categorical")}
@@ -192,6 +192,8 @@ def build_model(m, preaggs=None):
         kw["default_grain"] = m["default_grain"]
     if preaggs:
         kw["pre_aggregations"] = preaggs
+    if m.get("segments"):
+        kw["segments"] = [Segment(name=sg["name"], sql=E.render(sg["sql"])) for sg in m["segments"]]
     return Model(**kw)
 
 
@@ -235,6 +237,8 @@ def run_real(m, table, q, use_preaggregations=False, layer=None):
         kw = dict(metrics=q["metrics"], dimensions=q["dims"], filters=[E.render(f) for f in q["filters"]] or None,
                   order_by=[f + (" DESC" if d else "") for f, d in q["order_by"]] or None,
                   limit=q.get("limit"), offset=q.get("offset"), ungrouped=q.get("ungrouped", False))
+        if q.get("segments"):
+            kw["segments"] = q["segments"]
         if q.get("aliases"):
             from sidemantic.validation import QueryValidationError, validate_query
             errs = validate_query(q["metrics"], q["dims"], layer.graph)
